@@ -108,6 +108,8 @@ def units(tier):
     for kind in ("360", "365", "366"):
         us.append(("long", kind))
     us.append(("long", "greg"))
+    us.append(("derived", "greg"))
+    us.append(("derived", "360"))
     us.append(("unsupported",))
     us.append(("model_vs_datetime",))
     return us
@@ -211,14 +213,53 @@ def _safe_strftime(p, t):
         return None
 
 
-def _prep(kind, c, tier):
+DERIVE = ["cal", "ord", "week", "cal+1s", "ord+1d", "week-1d", "rezone", "cal+1d-1d"]
+
+
+def derive_point(p, how):
+    """A value reached through operations (conversions, shifts): same kind of object, private state no constructor
+    call produces. Its civil fields are read back from the object itself (alpha), not assumed."""
+    D = impl.D
+    if how == "cal":
+        return p.to_calendar_date()
+    if how == "ord":
+        return p.to_ordinal_date()
+    if how == "week":
+        return p.to_week_date()
+    if how == "cal+1s":
+        return p.to_calendar_date() + D.Duration(seconds=1)
+    if how == "ord+1d":
+        return p.to_ordinal_date() + D.Duration(days=1)
+    if how == "week-1d":
+        return p.to_week_date() - D.Duration(days=1)
+    if how == "rezone":
+        return p.to_time_zone(D.TimeZone(hours=-3, minutes=-30))
+    if how == "cal+1d-1d":
+        return (p.to_calendar_date() + D.Duration(days=1)) - D.Duration(days=1)
+    raise ValueError(how)
+
+
+def _prep(kind, c, tier, derived=False):
     pts = []
     for pdesc in point_pool(kind, tier):
         p = impl.build_point(pdesc)
-        dn, tod, off = impl.model_point(pdesc, kind)
-        tod = int(tod)
-        cv = civil(c, pdesc["rep"], pdesc["f"], tod // 3600, (tod % 3600) // 60, tod % 60, off, dn * 86400 + tod - off * 60)
-        pts.append((pdesc, p, cv))
+        if not derived:
+            dn, tod, off = impl.model_point(pdesc, kind)
+            tod = int(tod)
+            cv = civil(c, pdesc["rep"], pdesc["f"], tod // 3600, (tod % 3600) // 60, tod % 60, off, dn * 86400 + tod - off * 60)
+            pts.append((pdesc, p, cv))
+            continue
+        for how in DERIVE:
+            try:
+                q = derive_point(p, how)
+            except Exception:
+                continue
+            r = impl.alpha_fast(q, c)
+            if r[8] is not None or not 0 <= c.cal_from_dn(r[6])[0] <= 9999 or not 0 <= r[1][0] <= 9999:
+                continue   # an invalid derived value is C01/C03/C06's business; years outside 0000-9999 are out of scope
+            tod = int(r[7] - (r[6] * 86400 - r[5] * 60))
+            cv = civil(c, r[0], r[1], tod // 3600, (tod % 3600) // 60, tod % 60, r[5], r[7])
+            pts.append((dict(pdesc, derive=how), q, cv))
     return pts
 
 
@@ -247,6 +288,18 @@ def run_unit(unit, ctx):
         for fmt in LONG_FORMATS + ["%Y", "%j", "%F", "%m%d", "%s %z", "%Y-%j"]:
             tokens = [t for t in re.split(r"(%\w)", fmt) if t]
             tokens = [x for t in tokens for x in ([t] if t.startswith("%") else list(t))]
+            ctx.state_count += 1
+            check_format(ctx, kind, c, tokens, pts, ep)
+    elif u == "derived":
+        # every single directive and the long formats on derived operands
+        kind = unit[1]
+        impl.set_mode(A.MODE_OF[kind])
+        c = M.cal(kind)
+        pts = _prep(kind, c, "quick", derived=True)
+        ep = epoch_for(kind)
+        import re
+        fmts = [[d] for d in DIRECTIVES] + [["%Y", "-", "%j"], ["%F", "T", "%X", "%z"], ["%Y", "%m", "%d", "%j", "%H", "%M", "%S", "%z"]]
+        for tokens in fmts:
             ctx.state_count += 1
             check_format(ctx, kind, c, tokens, pts, ep)
     elif u == "unsupported":
@@ -309,10 +362,16 @@ def replay_case(case, ctx):
     tokens = [t for t in re.split(r"(%\w)", case["fmt"]) if t]
     tokens = [x for t in tokens for x in ([t] if t.startswith("%") else list(t))]
     pdesc = case["p"]
-    p = impl.build_point(pdesc)
-    dn, tod, off = impl.model_point(pdesc, kind)
-    tod = int(tod)
-    cv = civil(c, pdesc["rep"], pdesc["f"], tod // 3600, (tod % 3600) // 60, tod % 60, off, dn * 86400 + tod - off * 60)
+    p = impl.build_point({k: v for k, v in pdesc.items() if k != "derive"})
+    if pdesc.get("derive"):
+        p = derive_point(p, pdesc["derive"])
+        r = impl.alpha_fast(p, c)
+        tod = int(r[7] - (r[6] * 86400 - r[5] * 60))
+        cv = civil(c, r[0], r[1], tod // 3600, (tod % 3600) // 60, tod % 60, r[5], r[7])
+    else:
+        dn, tod, off = impl.model_point(pdesc, kind)
+        tod = int(tod)
+        cv = civil(c, pdesc["rep"], pdesc["f"], tod // 3600, (tod % 3600) // 60, tod % 60, off, dn * 86400 + tod - off * 60)
     check_format(ctx, kind, c, tokens, [(pdesc, p, cv)], epoch_for(kind))
 
 
